@@ -216,7 +216,10 @@ func (sta *State) UsedRandomCleaner() {
 		time.Sleep(replayCacheAgeLimit)
 		sta.usedRandomM.Lock()
 		for key, t := range sta.UsedRandom {
-			if time.Unix(t, 0).Before(sta.WorldState.Now().Add(timestampTolerance)) {
+			// a packet first seen at t can stay inside the acceptance window until t + 2*timestampTolerance
+			// (its own timestamp may lead the server clock by up to the tolerance), so only entries older
+			// than that may go
+			if time.Unix(t, 0).Before(sta.WorldState.Now().Add(-2 * timestampTolerance)) {
 				delete(sta.UsedRandom, key)
 			}
 		}
